@@ -739,7 +739,7 @@ func keywordCalls(p *Prog, keyword string) (calls []kwCall, ok bool) {
 			}
 			toks = append(toks, lexTok{typ: ttR, val: ">", line: 1, col: 7}, lexTok{typ: ttE, val: "", line: 1, col: 8})
 			if obs, dg, okRun := parseRun(p, fn, toks, 2); okRun {
-				if os.Getenv("SC_DEBUG_KW") == keyword {
+				if dk := os.Getenv("SC_DEBUG_KW"); dk != "" && dk == keyword {
 					fmt.Fprintf(os.Stderr, "keyword %q: diags=%q obs=%d\n", keyword, dg, len(obs))
 					for _, o := range obs {
 						fmt.Fprintf(os.Stderr, "   %s %v\n", o.factory, o.args)
